@@ -4,7 +4,7 @@
 static void vb_af_write_const(struct AbstractFile *f, const char *s, int64_t n)
 {
     VB_AF_CHECK(n >= 0 && f->p >= 0 && f->p + n <= f->cap, "harness bound: stream capacity");
-    if (n > 0) memcpy(f->buf + f->p, s, (size_t)n);
+    for (int64_t i = 0; i < n; i++) f->buf[f->p + i] = (uint8_t)s[i];
     f->p += n;
 }
 static void vb_af_write_sym(struct AbstractFile *f, const char *s, int64_t n)
@@ -23,7 +23,7 @@ static int64_t vb_af_read_prep(struct AbstractFile *f, int64_t n)
 static void vb_af_read_const(struct AbstractFile *f, char *s, int64_t n)
 {
     n = vb_af_read_prep(f, n);
-    if (n > 0) memcpy(s, f->buf + f->g, (size_t)n);
+    for (int64_t i = 0; i < n; i++) s[i] = (char)f->buf[f->g + i];
     f->g += n; f->gcount = n;
 }
 static void vb_af_read_sym(struct AbstractFile *f, char *s, int64_t n)
